@@ -22,7 +22,7 @@ CONTENTS = ("equal", "empty-vs", "one-byte", "large", "small")
 
 
 def budget(tier):
-    return {"quick": {"runs": 1500, "wall": 170}, "thorough": {"runs": 80000, "wall": 1500}}[tier]
+    return {"quick": {"runs": 1500, "wall": 170}, "thorough": {"runs": 18000, "wall": 900}}[tier]
 
 
 def _contents(kind, n):
